@@ -144,7 +144,7 @@ PROPS["C01"] = {
     "strata": ewd_strata,
     "nontrivial": ewd_nontrivial,
     "rule": "random + named-family connected multigraphs (n<=6 quick / 8 thorough, multiplicities<=4, edges shuffled/flipped/split), divisors stratified by degree band x debt pattern, both modes, recording on for a share",
-    "theorems": ["ewd_plain_verdict_exact", "ewd_optimized_verdict_exact", "ewd_modes_agree", "isWinnable_exact"],
+    "theorems": ["ewd_plain_verdict_exact", "ewd_optimized_verdict_exact", "ewd_modes_agree", "isWinnable_exact", "verdict_exact", "ewd_terminates"],
 }
 
 
@@ -281,7 +281,7 @@ MATCHERS["K1"] = k1_matcher
 NONTRIVIAL_RULE["C02"] = "non-trivial: n>=3 with a multi-edge or cycle and the reduction ran"
 PROPS["C02"] = {"generate": c02_generate, "judge": c02_judge, "strata": algo_strata, "nontrivial": algo_nontrivial,
                 "rule": "EWD plain mode and the q_reduction / is_q_reduced / is_winnable wrappers on generated connected multigraphs x divisors (debt on several vertices, ties for the minimum); oracle: the verified reduction w.r.t. every minimum-degree sink",
-                "theorems": ["qred_linEq", "qred_sink_is_min", "qred_is_qreduced", "qred_unique", "verdict_iff_no_debt_at_q", "isQReducedApi_const", "isQReduced_refuted", "isQReduced_partial"]}
+                "theorems": ["qred_linEq", "qred_sink_is_min", "qred_is_qreduced", "qred_unique", "verdict_iff_no_debt_at_q", "isQReducedApi_const", "isQReduced_refuted", "isQReduced_partial", "q_reduction_spec"]}
 
 
 # ---- C03
@@ -341,7 +341,7 @@ def c08_generate(rng, tier):
 NONTRIVIAL_RULE["C08"] = "non-trivial: n>=3 with a multi-edge or cycle"
 PROPS["C08"] = {"generate": c08_generate, "strata": algo_strata, "nontrivial": algo_nontrivial,
                 "rule": "DharAlgorithm on generated connected multigraphs x every sink x divisors with debt anywhere: send_debt_to_q, run, get_maximal_legal_firing_set, legal_set_fire, is_superstable of the concentrated configuration",
-                "theorems": ["send_debt_spec", "burn_is_max_legal", "fire_unburnt_debt_free", "burn_empty_iff_superstable"]}
+                "theorems": ["send_debt_spec", "burn_is_max_legal", "fire_unburnt_debt_free", "burn_empty_iff_superstable", "send_debt_total"]}
 
 
 # ---- C09
@@ -402,7 +402,7 @@ def c09_judge(rec):
 NONTRIVIAL_RULE["C09"] = "non-trivial: n>=3 with a multi-edge or cycle and an orientation was returned"
 PROPS["C09"] = {"generate": c09_generate, "judge": c09_judge, "strata": ewd_strata, "nontrivial": ewd_nontrivial,
                 "rule": "EWD in both modes (orientation returned on the non-shortcut path); every returned orientation is compared edge by edge with the model's and re-checked directly: full, acyclic, unique source, in-degree bound, domination",
-                "theorems": ["ewd_orientation_certificate", "unwinnable_dominated", "never_not_full"]}
+                "theorems": ["ewd_orientation_certificate", "unwinnable_dominated", "never_not_full", "certificate_connected"]}
 
 
 # ---- C14
